@@ -76,6 +76,9 @@ var bgMu sync.Mutex
 // package (build tag verif): `spawn` fires in the request handler before the goroutine starts (hence before the
 // response is returned), `done` when it ends.  waitBackground is exact, not a guess from quiet time.
 var bgSpawned, bgDone, bgParked int64
+
+// the client library calls the user's handlers in a goroutine of its own (wired.go: `go its.callHandlers`): counted exactly
+var hSpawned, hDone int64
 var bgOnSpawn atomic.Value // func(): called in the request handler right before its post-push goroutine starts
 var bgParkFn atomic.Value  // func() chan struct{}: the channel the next goroutine reaching `beforeSnapshot` parks on (or nil)
 
@@ -91,6 +94,10 @@ func installBgHook() {
 			}
 		case "server.postpush.done":
 			atomic.AddInt64(&bgDone, 1)
+		case "client.handlers.spawn":
+			atomic.AddInt64(&hSpawned, 1)
+		case "client.handlers.done":
+			atomic.AddInt64(&hDone, 1)
 		case "server.postpush.beforeSnapshot":
 			if f, ok := bgParkFn.Load().(func() chan struct{}); ok && f != nil {
 				if ch := f(); ch != nil {
@@ -283,17 +290,13 @@ func (w *sworld) spost(i int, o J) {
 
 func (w *sworld) waitHandlers(i int) []interface{} {
 	var all []interface{}
-	quiet := 0
-	for t := 0; t < 40 && quiet < 3; t++ {
-		time.Sleep(time.Millisecond)
-		ev := w.hl[i].take()
-		if len(ev) == 0 {
-			quiet++
-		} else {
-			quiet = 0
-			all = append(all, ev...)
-		}
+	// exact: every handler goroutine that was started has finished (schedule points client.handlers.spawn/done);
+	// the deadline only guards against a handler that never returns
+	dl := time.Now().Add(10 * time.Second)
+	for atomic.LoadInt64(&hDone) < atomic.LoadInt64(&hSpawned) && time.Now().Before(dl) {
+		time.Sleep(100 * time.Microsecond)
 	}
+	all = append(all, w.hl[i].take()...)
 	sort.Slice(all, func(a, b int) bool { return canonS(all[a]) < canonS(all[b]) })
 	if all == nil {
 		all = []interface{}{}
